@@ -269,6 +269,15 @@ class ApproxZipfDistribution
       ++begin_pos;
     }
 
+    // the exact and approximate parts of the CDF are not perfectly aligned at their
+    // boundary, so make sure that the selected bin really brackets the target
+    while (begin_pos > 0 && target_prob < GetCDF(begin_pos - 1)) {
+      --begin_pos;
+    }
+    while (begin_pos < static_cast<int64_t>(n_) - 1 && target_prob > GetCDF(begin_pos)) {
+      ++begin_pos;
+    }
+
     return min_ + static_cast<IntType>(begin_pos);
   }
 
